@@ -425,3 +425,13 @@ func AppendSlice[T any](pos string, s []T, t []T) []T {
 
 	return append(s, t...)
 }
+
+// ReadAllP is ReadAll for a typed pointer (inserted where the library copies a whole struct
+// through a pointer: value-receiver method calls and *p as a value).
+func ReadAllP[T any](p *T, pos string) *T {
+	if p != nil {
+		ReadAll(p, pos)
+	}
+
+	return p
+}
